@@ -22,6 +22,25 @@ func (in *Interp) ptrID(p Value) uint64 {
 		if x == nil {
 			return 0
 		}
+		// an aggregate and its first field / first element share their address (offset 0): descend to the
+		// first leaf cell so that &s, &s.f0 and &s.f0[0] get the same numeric value, as in memory
+		for {
+			var first *Value
+			switch agg := (*x).(type) {
+			case Struct:
+				if len(agg) > 0 {
+					first = &agg[0]
+				}
+			case Array:
+				if len(agg) > 0 {
+					first = &agg[0]
+				}
+			}
+			if first == nil {
+				break
+			}
+			x = first
+		}
 		key = x
 	case *Map:
 		if x == nil {
